@@ -237,6 +237,10 @@ class ECDSAKey(PKey):
             return False
         sig = msg.get_binary()
         sigR, sigS = self._sigdecode(sig)
+        if sigR < 0 or sigS < 0:
+            # encode_dss_signature() refuses negative integers; such a pair
+            # can never be a valid signature anyway.
+            return False
         signature = encode_dss_signature(sigR, sigS)
 
         try:
